@@ -46,6 +46,16 @@ fn main() {
         let engine = j.get("engine").and_then(Json::as_str).unwrap_or("").to_string();
         let seed = j.get("seed").and_then(Json::as_i64).unwrap_or(1) as u64;
         let idx = j.get("index").and_then(Json::as_i64).unwrap_or(0) as u64;
+        if engine == "c17_ping_race" {
+            let c = c17::ping_race(seed, idx);
+            println!("{}", c.desc.render());
+            if let Some(v) = c.violations.first() {
+                println!("REPLAY: reproduced {} {} :: {}", v.prop, v.oracle, v.msg);
+                std::process::exit(1);
+            }
+            println!("REPLAY: no violation reproduced");
+            return;
+        }
         if engine == "c17" {
             let c = c17::history(seed, idx);
             println!("{}", c.desc.render());
@@ -113,6 +123,33 @@ fn main() {
                 rep.engine("c17").merge(cov);
                 rep.add_findings(finds);
             }
+            // recycles at full speed on several worker threads (one round at a time: each owns a runtime)
+            let n_race = sc(12.0, 300.0).max(1);
+            let mut cov = Coverage::default();
+            let mut finds = Vec::new();
+            for i in 0..n_race {
+                let c = c17::ping_race(seed, i);
+                cov.evaluations += 1;
+                cov.events += c.events;
+                let _ = cov.distinct.insert(c.hash);
+                let _ = cov.nontrivial.insert(c.hash);
+                let _ = cov.schedules.insert(c.hash);
+                for (k, v) in &c.counters {
+                    cov.add(k, *v);
+                }
+                if !c.violations.is_empty() {
+                    cov.bump("violating_cases");
+                }
+                if let Some(v) = c.violations.first() {
+                    if finds.len() < 4 {
+                        finds.push(Finding { v: v.clone(), sig: format!("C17/c17_ping_race/{}", v.oracle), replay: c.desc.clone() });
+                    }
+                } else if cov.samples.is_empty() {
+                    cov.sample(c.desc);
+                }
+            }
+            rep.engine("c17_ping_race").merge(cov);
+            rep.add_findings(finds);
             std::process::exit(rep.finish(&args));
         }
         "C19" => {
